@@ -55,6 +55,17 @@ func (h *Hooks) Install() {
 	})
 }
 
+// Inject appends a pseudo-event logged by the harness itself (e.g. when its transport hands an
+// envelope to the library), in the same log and order as the library's events.
+func (h *Hooks) Inject(site string, id uint64, detail string) {
+	h.mu.Lock()
+	if h.logging {
+		h.events = append(h.events, Event{len(h.events), site, id, detail})
+		h.cond.Broadcast()
+	}
+	h.mu.Unlock()
+}
+
 // Reset clears the log and the yield table and turns logging on or off.
 func (h *Hooks) Reset(logging bool) {
 	h.mu.Lock()
